@@ -46,7 +46,7 @@ def closed_models(run):
         models += [("Consolidation_MCFull.cfg", 8 if big else 4), ("Consolidation_MC3.cfg", 8 if big else 4)]
     if run.tier == "quick":
         # one TLC run per focus tries every weakening (Weak = "*price" / "*pods"): WeakDetect prints <<"REJ", rule>>
-        weak = ["Consolidation_WeakAll.cfg", "Consolidation_WeakAll3.cfg", "Consolidation_WeakAllPods.cfg"]
+        weak = ["Consolidation_WeakAll.cfg", "Consolidation_WeakAllMulti.cfg", "Consolidation_WeakAll3.cfg", "Consolidation_WeakAllPods.cfg"]
     else:
         weak = sorted(os.path.basename(c) for c in glob.glob(os.path.join(run.specdir, "Consolidation_Weak_*.cfg")))
 
@@ -55,7 +55,7 @@ def closed_models(run):
         return cfg, run.closed_model("Consolidation", cfg, workers=workers, heap="4g", coverage=True, timeout=7200)
 
     def mutation(cfg):
-        wk = 4 if (big and cfg == "Consolidation_WeakAll.cfg") else 2
+        wk = 2
         return cfg, run.tlc("Consolidation", cfg, workers=wk, heap="3g", expect_violation=(run.tier != "quick"), timeout=7200)
 
     def never_taken(r):
